@@ -161,7 +161,6 @@ Proof.
     constructor; cbn; auto.
     + rewrite length_upd. exact Klc.
     + intros r c' H. ucase c r; [inversion H; reflexivity | eauto].
-    + intros sn' H. inversion H; subst. apply Ksn. reflexivity.
     + intros. discriminate.
     + intros r k g c' d Hk Hg Hc Hd. ucase c r.
       * inversion Hc; subst. cbn. assert (k = kc) by congruence. subst. rewrite Hmc. cbn.
@@ -212,4 +211,130 @@ Proof.
   - (* GCloseL *)
     destruct (nth_error (gs s) r) as [g|] eqn:Eg; try discriminate.
     destruct (Kg _ _ Eg) as [->|[t ->]]; discriminate.
+Qed.
+
+Lemma stable_run_inv : forall ls s s', forallb stable ls = true -> SInv s -> run_labels s ls = Some s' -> SInv s'.
+Proof.
+  induction ls as [|l r IH]; intros s s' Hs I H; cbn in *.
+  - inv_some. exact I.
+  - apply andb_prop in Hs as [Hl Hr]. destruct (step l s) as [s1|] eqn:E; try discriminate.
+    apply (IH s1 s' Hr); [eapply stable_step_inv; eauto | exact H].
+Qed.
+
+Theorem stable_inv : forall ks cs cc ls s, NoDup ks -> forallb stable ls = true ->
+  run_labels (init_stable ks cs cc) ls = Some s -> SInv s.
+Proof. intros. eapply stable_run_inv; eauto. apply sinv_init. assumption. Qed.
+
+Lemma step_static : forall l s s', step l s = Some s' ->
+  keys s' = keys s /\ capS s' = capS s /\ capC s' = capC s.
+Proof.
+  intros l s s' H. unfold step in H. destruct (panic s); try discriminate.
+  destruct l; unfold map_write_begin in H;
+  repeat match type of H with
+         | match ?x with _ => _ end = _ => destruct x eqn:?; try discriminate
+         | (if ?x then _ else _) = _ => destruct x eqn:?; try discriminate
+         end; inv_some; try (destruct (writing s)); cbn; auto.
+Qed.
+Lemma run_static : forall ls s s', run_labels s ls = Some s' ->
+  keys s' = keys s /\ capS s' = capS s /\ capC s' = capC s.
+Proof.
+  induction ls as [|l r IH]; intros s s' H; cbn in H.
+  - inv_some. auto.
+  - destruct (step l s) eqn:E; try discriminate. destruct (IH _ _ H) as (A & B & C).
+    destruct (step_static _ _ _ E) as (A' & B' & C'). repeat split; congruence.
+Qed.
+Lemma run_keys : forall ls s s', run_labels s ls = Some s' -> keys s' = keys s.
+Proof. intros. apply (run_static _ _ _ H). Qed.
+
+(** No runtime fault and no race in the stable system. *)
+Theorem stable_no_fault : forall ks cs cc ls s, NoDup ks -> forallb stable ls = true ->
+  run_labels (init_stable ks cs cc) ls = Some s -> panic s = None /\ race s = false.
+Proof. intros. pose proof (stable_inv _ _ _ _ _ H H0 H1) as I. split; [apply (S_panic _ I) | apply (S_race _ I)]. Qed.
+
+(** FIFO delivery and completeness: what replica r has received is a prefix of the commit sequence and the
+    remainder is exactly what is in flight towards it, in commit order. *)
+Theorem stable_delivery : forall ks cs cc ls s r, NoDup ks -> forallb stable ls = true ->
+  run_labels (init_stable ks cs cc) ls = Some s -> r < length ks ->
+  exists d g c k, nth_error (delivered s) r = Some d /\ nth_error (gs s) r = Some g /\
+                  nth_error (chs s) r = Some c /\ nth_error (keys s) r = Some k /\
+                  d ++ (got g ++ q c ++ pend (sp s) k r ++ schan s) = committed s.
+Proof.
+  intros ks cs cc ls s r Hn Hs Hr Hlt. pose proof (stable_inv _ _ _ _ _ Hn Hs Hr) as I.
+  pose proof (run_keys _ _ _ Hr) as Ek. cbn in Ek.
+  assert (r < length (keys s)) as Hl by (rewrite Ek; exact Hlt).
+  destruct (nth_error (delivered s) r) as [d|] eqn:Ed; [|apply nth_error_None in Ed; rewrite (S_ld _ I) in Ed; lia].
+  destruct (nth_error (gs s) r) as [g|] eqn:Eg; [|apply nth_error_None in Eg; rewrite (S_lg _ I) in Eg; lia].
+  destruct (nth_error (chs s) r) as [c|] eqn:Ec; [|apply nth_error_None in Ec; rewrite (S_lc _ I) in Ec; lia].
+  destruct (nth_error (keys s) r) as [k|] eqn:Ekk; [|apply nth_error_None in Ekk; lia].
+  exists d, g, c, k. repeat split; auto. apply (S_acct _ I r k g c d); auto.
+Qed.
+
+Lemma forallb_false_ex : forall A (f : A -> bool) l, forallb f l = false -> exists x, In x l /\ f x = false.
+Proof.
+  induction l as [|a r IH]; cbn; intros H; try discriminate.
+  destruct (f a) eqn:E.
+  - destruct (IH H) as [x [H1 H2]]. exists x. auto.
+  - exists a. auto.
+Qed.
+
+Lemma or5 : forall a b c d e, a = true \/ b = true \/ c = true \/ d = true \/ e = true -> a || b || c || d || e = true.
+Proof. intros a b c d e H. destruct a, b, c, d, e; try reflexivity. destruct H as [H|[H|[H|[H|H]]]]; discriminate. Qed.
+
+(** The master does not block by itself: whenever Sender.Send (the WAL loop) cannot proceed, the
+    sender goroutine or a stream goroutine can.  (That a stream goroutine's stream.Send eventually
+    returns is the replica's part: see C26_stalled_replica_blocks.) *)
+Theorem stable_progress_inv : forall s, SInv s -> (0 < capS s)%N -> (0 < capC s)%N ->
+  enabled Commit s = true \/ internal_enabled s = true.
+Proof.
+  intros s I HcS HcC. destruct I as [Kp Kr Kw Kn Km Klg Klc Kld Kg Ko Ksn Kh Ka].
+  unfold internal_enabled, enabled, step. rewrite Kp.
+  destruct (sp s) as [|t sn vis|t sn vis c] eqn:Es.
+  - destruct (schan s) as [|t r] eqn:Eq.
+    + left. cbn. destruct (0 <? capS s)%N eqn:E; auto. apply N.ltb_ge in E. lia.
+    + right. apply or5. left. reflexivity.
+  - right. rewrite Kw.
+    destruct (forallb (fun e => negb (memb (fst e) sn) || memb (fst e) vis) (smap s)) eqn:Ef.
+    + apply or5. right. left. reflexivity.
+    + assert (exists k, In k (keys s) /\ (exists c, lookup (smap s) k = Some c) /\ memb k vis = false) as [k [Hin [[c Hl] Hm]]].
+      { clear -Ef Km Kn. assert (forall e, In e (smap s) -> In (fst e) (keys s) /\ exists c, lookup (smap s) (fst e) = Some c) as Hall.
+        { intros [k c] Hin. rewrite Km in Hin. pose proof (in_combine_l _ _ _ _ Hin) as Hk. split; auto.
+          apply In_nth_error in Hk as [r Hr]. rewrite Km. cbn. erewrite lookup_combine_some; eauto. }
+        destruct (forallb_false_ex _ _ _ Ef) as [e [Hin E]]. apply orb_false_elim in E as [_ E].
+        destruct (Hall e Hin) as [H1 H2]. exists (fst e). auto. }
+      assert (existsb (fun k0 => match (match lookup (smap s) k0 with
+                 | Some c0 => if memb k0 vis then None else Some (set_sp s (SHold t sn (k0 :: vis) c0))
+                 | None => None end) with Some _ => true | None => false end) (keys s) = true) as X.
+      { apply existsb_exists. exists k. split; auto. rewrite Hl, Hm. reflexivity. }
+      apply or5. right. right. right. left. exact X.
+  - right. destruct (Kh _ _ _ _ eq_refl) as [k [Hk Hm]].
+    assert (c < length (keys s)) as Hlt by (apply nth_error_Some; congruence).
+    destruct (nth_error (chs s) c) as [ch|] eqn:Ec; [|apply nth_error_None in Ec; lia].
+    rewrite (Ko _ _ Ec).
+    destruct (N.of_nat (length (q ch)) <? capC s)%N eqn:Ecap.
+    + apply or5. right. right. left. reflexivity.
+    + apply N.ltb_ge in Ecap.
+      destruct (nth_error (gs s) c) as [g|] eqn:Eg; [|apply nth_error_None in Eg; lia].
+      assert (existsb (fun r => match (match nth_error (gs s) r, nth_error (chs s) r with
+                 | Some GLoop, Some ch0 => match q ch0 with
+                                          | t0 :: rest => Some (set_g (set_chs s (upd r (mkchan rest (closed ch0)) (chs s))) r (GGot t0))
+                                          | [] => None end
+                 | _, _ => None end) with Some _ => true | None => false end
+               || match (match nth_error (gs s) r with
+                         | Some (GGot t0) => Some (set_g (set_delivered s (upd r (nth r (delivered s) [] ++ [t0]) (delivered s))) r GLoop)
+                         | _ => None end) with Some _ => true | None => false end) (seq 0 (length (keys s))) = true) as X.
+      { apply existsb_exists. exists c. split; [apply in_seq; lia|]. rewrite Eg, Ec.
+        destruct (Kg _ _ Eg) as [->|[t0 ->]].
+        - destruct (q ch) as [|t0 rest]; [cbn in Ecap; lia | reflexivity].
+        - cbn. reflexivity. }
+      apply or5. right. right. right. right. exact X.
+Qed.
+
+Theorem stable_progress : forall ks cs cc ls s, NoDup ks -> forallb stable ls = true ->
+  (0 < cs)%N -> (0 < cc)%N ->
+  run_labels (init_stable ks cs cc) ls = Some s ->
+  enabled Commit s = true \/ internal_enabled s = true.
+Proof.
+  intros ks cs cc ls s Hn Hs H1 H2 Hr. pose proof (stable_inv _ _ _ _ _ Hn Hs Hr) as I.
+  destruct (run_static _ _ _ Hr) as (_ & E1 & E2). cbn in E1, E2.
+  apply stable_progress_inv; auto; [rewrite E1 | rewrite E2]; assumption.
 Qed.
